@@ -197,11 +197,6 @@ func (p *parser) continuation(node Node, prec int) (Node, error) {
 
 				if node == nil {
 					node = right
-				} else if isProjectNode(node) {
-					node = &ProjectArrayNode{
-						Left:  node,
-						Right: right,
-					}
 				} else {
 					node = &PipeNode{
 						Left:  node,
